@@ -157,7 +157,7 @@ def run(ctx):
         raise vlib.Infra("C20: %d cases generated, %d wanted" % (len(cases), n))
 
     # 3. real code
-    ex = lambda cs: execute(ctx, cs, procs=1 if quick else 4)
+    ex = lambda cs: execute(ctx, cs, procs=2 if quick else 4)
     recs = ex(cases)
     if len(recs) != len(cases):
         raise vlib.Infra("C20: %d cases but %d records" % (len(cases), len(recs)))
@@ -168,7 +168,7 @@ def run(ctx):
         ctx.note_case(c, nontrivial=("wait" in kinds or "get" in kinds))
 
     def brief(r):
-        return {"call": {k: r["case"][k] for k in ("ep", "id", "ver", "ids", "bbox", "q", "opts", "base", "lim", "via")},
+        return {"call": {k: r["case"][k] for k in ("ep", "id", "ver", "ids", "bbox", "q", "ctx", "opts", "base", "lim", "via")},
                 "ev": [{k: v for k, v in e.items() if k not in ("body", "errmsg")} for e in r["ev"]]}
     ctx.samples = [brief(recs[i]) for i in (0, len(recs) // 3, 2 * len(recs) // 3, len(recs) - 1)]
 
@@ -188,7 +188,7 @@ def run(ctx):
     for r, line in divs[:10]:
         ctx.divergences += 1
         vlib.log("DIVERGENCE property=C20 call=%s rejected_line=%s" % (
-            json.dumps({k: r["case"][k] for k in ("ep", "id", "ver", "ids", "bbox", "q", "opts", "base", "lim", "via")}), line[:400]))
+            json.dumps({k: r["case"][k] for k in ("ep", "id", "ver", "ids", "bbox", "q", "ctx", "opts", "base", "lim", "via")}), line[:400]))
     if len(divs) > 10:
         ctx.divergences += len(divs) - 10
 
@@ -221,8 +221,9 @@ def run(ctx):
         "URLs are compared as host + escaped path + multiset of decoded query parameters; bbox components numerically (unit 1e-7 degree)",
         "bbox bounds that are not whole micro-degrees: only the presence of the bbox parameter is compared (documentation fixes no number of decimals)",
         "base URLs have no trailing slash; the HTTP client follows no redirects in the explored space (3xx answers carry no Location)",
-        "context.Background(); transport failures and cancellation are outside the explored space",
+        "context.Background() or a far-away caller deadline; transport failures and cancellation are outside the explored space",
         "calls run one at a time (the property is about single calls)",
+        "response size / streaming: documents are delivered plainly, padded to 256 KB with XML comments, and/or in two flushes 15 ms apart",
     ]
 
 
